@@ -52,14 +52,32 @@ def npos(sel, n):
     return sum(sel['v']) if sel['k'] == 'm' else len(sel['v'])
 
 
+# pairs (a, b) of universe indices with name a a substring of name b
+SUBSTR = [(i, j) for i, a in enumerate(UNIVERSE) for j, b in enumerate(UNIVERSE) if i != j and a in b]
+
+
+def gen_keep_arg(rng, have):
+    """keep_fields in its documented forms: list / tuple of names, or one name as a plain str — preferably a name that
+    contains (or is contained in) the name of another field of the table"""
+    form = rng.choice(['list', 'list', 'tuple', 'str', 'str'])
+    if form == 'str':
+        rel = [j for i, j in SUBSTR if i in have and j in have] + [i for i, j in SUBSTR if i in have and j in have]
+        pool = rel if rel and rng.random() < 0.8 else (have or list(range(len(UNIVERSE))))
+        return [rng.choice(pool)], 'str'
+    return [i for i in range(len(UNIVERSE)) if rng.random() < 0.6], form
+
+
 def gen_new(rng, nrows=None, nfields=None):
     n = rng.choice([0, 1, 2, 3, 3, 5, 8, 13, 20, 50]) if nrows is None else nrows
     k = rng.randrange(1, 6) if nfields is None else nfields
     names = rng.sample(range(len(UNIVERSE)), k)
+    if k >= 2 and rng.random() < 0.5:
+        names[:2] = list(rng.choice(SUBSTR))          # two fields one of whose names is a substring of the other
+        names = list(dict.fromkeys(names))
     cols = [[nm, gen_col(rng, n)] for nm in names]
-    if k > 1 and rng.random() < 0.08:
+    if len(cols) > 1 and rng.random() < 0.08:
         # constructor with field arrays of different lengths: 1 vs n, n vs 1, m vs n (must raise for copy=True and copy=False)
-        i = rng.randrange(k)
+        i = rng.randrange(len(cols))
         m = rng.choice([1, 1, n + 1, max(0, n - 1), n + 3])
         if m == n:
             m = n + 1
@@ -143,8 +161,8 @@ def gen_sequence(rng, length):
             news = [rng.choice(other) if other and rng.random() < 0.8 else rng.randrange(len(UNIVERSE)) for _ in olds]
             emit({'op': 'rename', 'c': c, 'convs': [[o, n] for o, n in zip(olds, news)], 'must': rng.random() < 0.5})
         elif k == 'tidyUp':
-            keep = [i for i in range(len(UNIVERSE)) if rng.random() < 0.6]
-            emit({'op': 'tidyUp', 'c': c, 'keep': keep})
+            keep, form = gen_keep_arg(rng, have)
+            emit({'op': 'tidyUp', 'c': c, 'keep': keep, 'form': form})
         elif k == 'getSel':
             emit({'op': 'getSel', 'c': c, 'sel': gen_sel(rng, t.n, valid=not bad), 'via_getitem': rng.random() < 0.5})
         elif k == 'setSel':
@@ -165,15 +183,15 @@ def gen_sequence(rng, length):
         elif k == 'sortBy':
             emit({'op': 'sortBy', 'c': c, 'n': anyname()})
         elif k == 'copy':
-            keep = None if rng.random() < 0.5 else [i for i in range(len(UNIVERSE)) if rng.random() < 0.6]
-            emit({'op': 'copy', 'c': c, 'keep': keep})
+            (keep, form) = (None, None) if rng.random() < 0.4 else gen_keep_arg(rng, have)
+            emit({'op': 'copy', 'c': c, 'keep': keep, 'form': form, 'via_ctor': rng.random() < 0.4})
         elif k == 'setDtype':
             emit({'op': 'setDtype', 'c': c, 'n': anyname(), 'dt': rng.choice(DTS)})
         elif k == 'convert':
             m = rng.choice([1, 2])
             olds = rng.sample(DTS, m)
             emit({'op': 'convert', 'c': c, 'convs': [[o, rng.choice(DTS)] for o in olds],
-                  'exc': [i for i in have if rng.random() < 0.3]})
+                  'exc': [i for i in have if rng.random() < 0.3], 'form': rng.choice(['list', 'tuple'])})
         elif k == 'indices':
             emit({'op': 'indices', 'c': c})
         elif k == 'new':
@@ -228,11 +246,15 @@ EXH_FULL = EXH_ALPHABET + [
     {'op': 'tidyUp', 'c': 0, 'keep': [0, 2]},
     {'op': 'convert', 'c': 0, 'convs': [['f32', 'f64'], ['i64', 'i16']], 'exc': []},
     {'op': 'getSel', 'c': 0, 'sel': {'k': 'm', 'v': [1, 0]}},           # mask: raises unless the table has two rows
-    {'op': 'appendField', 'c': 0, 'n': 3, 'col': {'dt': 'b', 'v': [1, 0]}},
+    {'op': 'appendField', 'c': 0, 'n': 4, 'col': {'dt': 'b', 'v': [1, 0]}},      # sin_dec next to dec
     {'op': 'copy', 'c': 0, 'keep': None},
     {'op': 'freeze', 'd': 0, 'm': 0},                                   # column 0 becomes a read-only array
     {'op': 'new', 'cols': [[0, {'dt': 'i64', 'v': [1, 2, 3]}], [1, {'dt': 'f32', 'v': [4]}]]},   # unequal lengths: raises
     {'op': 'sortBy', 'c': 0, 'n': 5},                                   # missing key field: raises
+    {'op': 'tidyUp', 'c': 0, 'keep': [4], 'form': 'str'},               # one name as a plain str (sin_dec; dec is a substring)
+    {'op': 'copy', 'c': 0, 'keep': [5], 'form': 'str', 'via_ctor': True},   # true_ra as a plain str through the constructor
+    {'op': 'rename', 'c': 0, 'convs': [[0, 5], [1, 4]], 'must': False},  # ra -> true_ra, dec -> sin_dec
+    {'op': 'tidyUp', 'c': 0, 'keep': [1, 0], 'form': 'tuple'},
 ]
 # a second start: three rows with a bool and a float64 column, and an empty partner
 EXH_INIT_B = [
@@ -563,8 +585,8 @@ def run(ctx):
                         'no NaN in sort keys; conversions dicts have distinct old names (a Python dict)']
     # ---- bounded-exhaustive histories
     depth = ctx.n(4, 5)
-    # quick: 12 of the 15 core letters (the other three are in EXH_FULL); thorough: all 15
-    alphabet = EXH_ALPHABET if ctx.thorough else [EXH_ALPHABET[i] for i in (0, 1, 2, 3, 4, 5, 6, 7, 9, 12, 13, 14)]
+    # quick: 11 of the 15 core letters (the other three are in EXH_FULL); thorough: all 15
+    alphabet = EXH_ALPHABET if ctx.thorough else [EXH_ALPHABET[i] for i in (0, 1, 2, 3, 5, 6, 7, 9, 12, 13, 14)]
     bad = [(p, d, alphabet, EXH_INIT) for p, d in exhaustive(ctx, depth, alphabet)]
     # every operation kind (dtype conversion, tidy_up, masks, fresh append_field, copy(), read-only, failing constructor / sort)
     dfull = 3
@@ -591,7 +613,7 @@ def run(ctx):
         seen.add(sig)
         report(ctx, case, d)
     # ---- random sequences (correspondence + oracle)
-    n_seq = ctx.n(110, 3000)
+    n_seq = ctx.n(100, 3000)
     disagreements = len(bad)
     batch, all_lines = [], []
     for i in range(n_seq):
